@@ -403,6 +403,7 @@ theorem sparseLoop_any (bufsz : Nat) (hb : 0 < bufsz) : ∀ (fuel : Nat) (st : O
         simp only [w4 trivial, w2, List.append_assoc, replicate_split _ _ hd1.2]
       | io => simp_all
       | oob => simp_all
+      | compressor => simp_all
       | fuel => simp_all
 
 theorem ftruncLoop_spec : ∀ (fuel len : Nat) (os : OS), noHard os.sc = true → os.sc.length < fuel →
@@ -539,6 +540,7 @@ theorem ostreamStep_any (st : OStream) (op : OOp) (os : OS) :
         simp [logical, w4 hok, w2, h4, h5, oopBytes]
       | io => simp_all
       | oob => simp_all
+      | compressor => simp_all
       | fuel => simp_all
 
 end Sqfs.IoLoops
